@@ -61,6 +61,7 @@ def signerOf : Op → Option Addr
   | .add m => some m.sender.bytes
   | .remove m => some m.sender.bytes
   | .send src _ _ _ => some src
+  | .autoSwap rcpt _ _ _ => some rcpt
   | _ => none
 
 def SignerOK (s : State) (op : Op) : Prop :=
@@ -119,6 +120,13 @@ theorem wf_step {env : Env} {s s' : State} {op : Op} {r : Resp} (hW : WF env s)
     rw [F.hState]; exact same _ rfl rfl rfl
   | send src dst d amt =>
     simp only [step] at h
+    obtain ⟨b, _, h⟩ := bind_ok h
+    injection h with h; simp only [Prod.mk.injEq] at h
+    rw [← h.1]; exact same _ rfl rfl rfl
+  | autoSwap rcpt dIn maxIn out =>
+    simp only [step] at h
+    obtain ⟨⟨sold, bought, esc⟩, _, h⟩ := bind_ok h
+    simp only at h
     obtain ⟨b, _, h⟩ := bind_ok h
     injection h with h; simp only [Prod.mk.injEq] at h
     rw [← h.1]; exact same _ rfl rfl rfl
